@@ -5,7 +5,7 @@
    lib/loop_job.c, lib/util.c clock).  `fixed' = the tree with fixes/C09-*.patch, `as_found' = commit 6c47408. *)
 From Coq Require Import ZArith List Bool Sorted.
 Require Import Verif.gen.Consts_looptimer Verif.HeapModel Verif.HeapProofs Verif.LoopTimerModel
-               Verif.LoopTimerArith Verif.LoopTimerWitness.
+               Verif.LoopTimerArith Verif.LoopTimerWitness Verif.LoopTimerProofs.
 Import ListNotations.
 Local Open Scope Z_scope.
 
@@ -78,6 +78,19 @@ Theorem C09_never_early_arith : forall now d now', u64 now -> u64 d -> u64 now' 
 Proof. exact (fun now d now' a b c => conj (expire_of_fixed_never_early now d now' a b c) (expire_of_fixed_due now d now' a b c)). Qed.
 Print Assumptions C09_never_early_arith.
 
+(* END TO END, repaired code, ALL histories: any interleaving of timer add / delete (any handle value, also
+   forged or stale ones) / queries / job add / clock ticks / qb_loop_run with any number of turns, any callback
+   behaviour table (callbacks that add, delete, stop, query), any initial clock, any clock resolution, any time
+   passing per clock read - durations ranging over the full uint64_t.  EFire is the ghost record written when a
+   timer callback is about to run: clock at add, duration asked, clock at which timerlist_expire found it due,
+   clock now.  The callback never runs before add + duration. *)
+Theorem C09_never_early : forall beh ops hz0 clk0 cstep0 data prio add dur fire now,
+  0 < hz0 -> 0 < clk0 <= LT_UINT64_MAX -> wf_beh beh -> Forall wf_op ops ->
+  In (EFire data prio add dur fire now) (out (run fixed beh (lp_init hz0 clk0 cstep0) ops)) ->
+  add + dur < fire /\ fire <= now.
+Proof. exact never_early_all_histories. Qed.
+Print Assumptions C09_never_early.
+
 (* the code as found: now + duration wraps mod 2^64 (witness: 2^64 - 6 ns asked at clock 1000) *)
 Theorem C09_never_early_arith_refuted :
   exists now d now', u64 now /\ u64 d /\ u64 now' /\ expire_of as_found now d < now' /\ ~ (now + d < now').
@@ -102,6 +115,25 @@ Theorem C09_timeout_sound_arith : forall st r, at_ (ents (heap st)) 0 r -> u64 (
   (t_exp r < now -> timeout = 0).
 Proof. exact msec_to_expire_sound. Qed.
 Print Assumptions C09_timeout_sound_arith.
+
+(* END TO END, repaired code, ALL histories (as for C09_never_early): EDecide is the ghost record of the timeout
+   decision of one turn of qb_loop_run: value handed to the poll source, clock before the decision, expire_time
+   at the root of the heap (-1: empty), tick in ms, number of jobs just queued.  Whenever a timer is in the heap
+   the loop never asks to wait indefinitely (negative), and the wait is 0, or the 50 ms throttle with jobs just
+   queued, or ends no later than one tick after the root's expiry (= the earliest, C09_root_is_min). *)
+Theorem C09_timeout_sound : forall beh ops hz0 clk0 cstep0 t n root tick j,
+  0 < hz0 -> 0 < clk0 <= LT_UINT64_MAX -> wf_beh beh -> Forall wf_op ops ->
+  In (EDecide t n root tick j) (out (run fixed beh (lp_init hz0 clk0 cstep0) ops)) -> 0 <= root ->
+  0 <= t <= LT_INT32_MAX /\
+  (t = 0 \/ (t = 50 /\ j > 0) \/ n + t * LT_NS_IN_MSEC <= Z.max n root + tick * LT_NS_IN_MSEC).
+Proof. exact timeout_sound_all_histories. Qed.
+Print Assumptions C09_timeout_sound.
+
+Example C09_all_histories_example :
+  let st := run fixed ex_beh (lp_init (hz_of_res 4000000) 1000 3) ex_ops in
+  In (EFire 1 1 1000 3000000 50001013 50001017) (out st) /\
+  In (EDecide 50 1012 3001000 4 1) (out st) /\ In (EDecide 5 50001023 52001017 4 0) (out st).
+Proof. exact ex_run_events. Qed.
 
 (* the decision of qb_loop_run: 0 when work is queued, 50 ms only when jobs were just queued, else the above *)
 Theorem C09_timeout_decision : forall st r rem tt jt,
